@@ -235,7 +235,7 @@ theorem tie_indexMtime :
 
 /-- collection.go `EachCollection`: the attributes it selects are the model's `selectedAttrs`, and
 whether `storage_classes_desired` is among the string literals of the function is the model's
-`selClassesNow` (false in the current code: keep-balance is never told the classes — F05b). -/
+`selClassesNow` (true since the fix: commit for F05b; before it keep-balance was never told the classes). -/
 theorem tie_select :
     (ArvVerif.C05.selectedAttrs.all fun a => eachCollectionStrings.contains a) = true ∧
     eachCollectionStrings.contains "storage_classes_desired" = ArvVerif.C05.selClassesNow := by
